@@ -263,7 +263,7 @@ Definition closed_failback_set (fixed : bool) (c : csets) (a : actions) : list h
                (a_faildust a)
    else []).
 
-Definition impl_fixed : bool := true.
+Definition impl_fixed : bool := false.
 
 (* checkLegacyBreach *)
 Definition legacy_breach (logres : option resolutions) : astate :=
